@@ -180,3 +180,47 @@ func H_C07() {
 
 var _ = unsafe.Pointer(nil)
 var _ = skiplist.MaxLevel
+
+// H_C07_restore: an instance populated by LoadFromDisk (user-managed memory) must also return every block by Close.
+func H_C07_restore() {
+	cfg, c := vConfig()
+	if vBound("delta") == 1 {
+		cfg.UseDeltaInterleaving()
+	}
+	DiskBlockSize = vBound("blocksize")
+	db := NewWithConfig(cfg)
+	ws := vWriters(db, 1)
+	n := vRange("nitems", 0, 0, vBound("items"))
+	var g vSetModel
+	for i := 0; i < n; i++ {
+		k := vByte("key", i)
+		if ws[0].Put2(c.item(k, byte(i+1))) != nil {
+			g.put(int(k), c.val(byte(i+1)))
+		}
+	}
+	snap, _ := db.NewSnapshot()
+	snap.Open()
+	dir := vFSDir() + "/c07r"
+	vAssert(db.StoreToDisk(dir, snap, 1, nil) == nil, "StoreToDisk succeeds")
+	snap.Close()
+	db.Close()
+	vAssert(vLiveBlocks() == 0, "source instance returned every block")
+	db2 := NewWithConfig(cfg)
+	snap2, err := db2.LoadFromDisk(dir, vRange("lconcurr", 0, 1, 2), nil)
+	vAssert(err == nil && snap2 != nil, "LoadFromDisk succeeds")
+	if err != nil || snap2 == nil {
+		return
+	}
+	vScanCheck(db2, c, snap2, &g, "restored snapshot")
+	if vChoice("postop", 0, 2) == 1 {
+		w2 := db2.NewWriter()
+		w2.rand = vRand("w2")
+		w2.Delete(c.item(vByte("dkey", 0), 0))
+		s3, _ := db2.NewSnapshot()
+		s3.Close()
+	}
+	snap2.Close()
+	db2.Close()
+	vAssert(vLiveBlocks() == 0, "an instance populated by LoadFromDisk returns every block by Close")
+	vReach("c07-restore-done")
+}
